@@ -93,49 +93,136 @@ pub fn apply_patches(prog: &mut [u8], patch: &[(usize, String, i64)], membase: u
     }
 }
 
+// entry stack alignment probe: records (rsp & 15) at the helper's entry, then tail-jumps to h3
+std::arch::global_asm!(
+    ".global rbpf_harness_h3_probe",
+    "rbpf_harness_h3_probe:",
+    "mov rax, rsp",
+    "and rax, 15",
+    "mov qword ptr [rip + {slot}], rax",
+    "jmp {target}",
+    slot = sym ALIGN_SLOT,
+    target = sym h3,
+);
+extern "C" { fn rbpf_harness_h3_probe(a: u64, b: u64, c: u64, d: u64, e: u64) -> u64; }
+#[no_mangle]
+pub static mut ALIGN_SLOT: u64 = 0xff;
+fn h3_probe_ptr() -> rbpf::ebpf::Helper { unsafe { std::mem::transmute(rbpf_harness_h3_probe as unsafe extern "C" fn(u64, u64, u64, u64, u64) -> u64) } }
+
+fn helper_fn(i: usize) -> rbpf::ebpf::Helper { if i % 4 == 3 { h3_probe_ptr() } else { HELPERS[i % 4] } }
+
+fn log_digest() -> (usize, u64) {
+    let log_bytes: Vec<u8> = HLOG.with(|l| l.borrow().iter().flat_map(|(n, a)| {
+        let mut v = n.to_le_bytes().to_vec(); for x in a { v.extend_from_slice(&x.to_le_bytes()); } v }).collect());
+    (HLOG.with(|l| l.borrow().len()), fnv(&log_bytes))
+}
+
+enum Vm<'a> { Mbuff(rbpf::EbpfVmMbuff<'a>), Raw(rbpf::EbpfVmRaw<'a>), NoData(rbpf::EbpfVmNoData<'a>), Fixed(rbpf::EbpfVmFixedMbuff<'a>) }
+
+macro_rules! each_vm { ($vm:expr, $v:ident => $e:expr) => { match $vm { Vm::Mbuff($v) => $e, Vm::Raw($v) => $e, Vm::NoData($v) => $e, Vm::Fixed($v) => $e } } }
+
 pub fn run(t: &[&str]) -> String {
-    let Some(mut c) = parse(t) else { return "bad-op".into() };
+    let Some(c) = parse(t) else { return "bad-op".into() };
+    let mut kv: HashMap<&str, &str> = HashMap::new();
+    for tok in &t[1..] { if let Some((k, v)) = tok.split_once('=') { kv.insert(k, v); } }
+    let kind = kv.get("kind").copied().unwrap_or("mbuff").to_string();
+    let engines: Vec<String> = kv.get("engines").map(|s| s.split(',').filter(|x| !x.is_empty() && *x != "-").map(|x| x.to_string()).collect()).unwrap_or_default();
+    let fixoff: (usize, usize) = kv.get("fixoff").and_then(|s| s.split_once(':')).map(|(a, b)| (a.parse().unwrap_or(0), b.parse().unwrap_or(8))).unwrap_or((0, 8));
     let extrabase: Vec<u64> = c.extra.iter().map(|e| e.as_ptr() as u64).collect();
-    let membase = c.mem.as_ptr() as u64;
-    let mbuffbase = c.mbuff.as_ptr() as u64;
+    // one pristine copy of the buffers per run (interpreter, then each engine)
+    let mem0 = c.mem.clone(); let mbuff0 = c.mbuff.clone();
+    let mut mem = c.mem.clone(); let mut mbuff = c.mbuff.clone();
+    let membase = mem.as_ptr() as u64; let mbuffbase = mbuff.as_ptr() as u64;
     let mut prog = c.prog.clone();
     apply_patches(&mut prog, &c.patch, membase, mbuffbase, &extrabase);
-    let echo_pre = format!("membase={:x} mbuffbase={:x} extrabase={}", membase, mbuffbase,
-        if extrabase.is_empty() { "-".to_string() } else { extrabase.iter().map(|x| format!("{:x}", x)).collect::<Vec<_>>().join(",") });
+    let probe: Vec<u8> = vec![0xbf, 0x10, 0, 0, 0, 0, 0, 0, 0x95, 0, 0, 0, 0, 0, 0, 0]; // mov r0, r1; exit
     HLOG.with(|l| l.borrow_mut().clear());
-    let helpers = c.helpers.clone(); let calc_t = c.calc.clone(); let arange = c.arange.clone();
-    let budget = c.budget;
-    let mem_ptr = c.mem.as_mut_ptr(); let mem_len = c.mem.len();
-    let mbuff_ptr = c.mbuff.as_mut_ptr(); let mbuff_len = c.mbuff.len();
-    let eb = extrabase.clone();
-    let progref: &[u8] = &prog;
+    let progref: &[u8] = &prog; let proberef: &[u8] = &probe;
+    let cref = &c; let ebref = &extrabase;
+    let mem_ptr = mem.as_mut_ptr(); let mem_len = mem.len();
+    let mbuff_ptr = mbuff.as_mut_ptr(); let mbuff_len = mbuff.len();
+    let kindr = kind.as_str();
+    let mut fixedbase: u64 = 0;
+    let mut engine_out: Vec<String> = vec![];
+    let fixedbase_ref = &mut fixedbase; let engine_out_ref = &mut engine_out;
     let res = std::panic::catch_unwind(std::panic::AssertUnwindSafe(move || -> Result<String, String> {
-        let mut vm = match rbpf::EbpfVmMbuff::new(Some(progref)) { Ok(vm) => vm, Err(_) => return Ok("rejected".to_string()) };
-        for (k, f) in &helpers { vm.register_helper(*k, HELPERS[*f % 4]).map_err(|e| e.to_string())?; }
-        if let Some(tb) = calc_t { vm.set_stack_usage_calculator(calc, Box::new(tb)).map_err(|e| e.to_string())?; }
-        for (i, lo, hi) in &arange {
-            let b = eb[*i];
-            vm.register_allowed_memory(b.wrapping_add(*lo as u64)..b.wrapping_add(*hi as u64));
+        let es = |e: std::io::Error| e.to_string();
+        // build the VM of the requested kind on the program (the fixed-metadata VM first runs a probe to learn its buffer address)
+        let mut vm = match kindr {
+            "raw" => match rbpf::EbpfVmRaw::new(Some(progref)) { Ok(v) => Vm::Raw(v), Err(_) => return Ok("rejected".into()) },
+            "nodata" => match rbpf::EbpfVmNoData::new(Some(progref)) { Ok(v) => Vm::NoData(v), Err(_) => return Ok("rejected".into()) },
+            "fixed" => {
+                let mut v = rbpf::EbpfVmFixedMbuff::new(Some(proberef), fixoff.0, fixoff.1).map_err(es)?;
+                let mut scratch = vec![0u8; 8];
+                let sref: &mut [u8] = unsafe { std::slice::from_raw_parts_mut(scratch.as_mut_ptr(), 8) };
+                *fixedbase_ref = v.execute_program(sref).map_err(es)?;
+                if v.set_program(progref, fixoff.0, fixoff.1).is_err() { return Ok("rejected".into()); }
+                Vm::Fixed(v)
+            }
+            _ => match rbpf::EbpfVmMbuff::new(Some(progref)) { Ok(v) => Vm::Mbuff(v), Err(_) => return Ok("rejected".into()) },
+        };
+        for (k, f) in &cref.helpers { each_vm!(&mut vm, v => v.register_helper(*k, helper_fn(*f)).map_err(es)?); }
+        if let Some(tb) = cref.calc.clone() { each_vm!(&mut vm, v => v.set_stack_usage_calculator(calc, Box::new(tb)).map_err(es)?); }
+        for (i, lo, hi) in &cref.arange {
+            let b = ebref[*i];
+            each_vm!(&mut vm, v => v.register_allowed_memory(b.wrapping_add(*lo as u64)..b.wrapping_add(*hi as u64)));
         }
-        rbpf::verif::set_insn_budget(budget);
-        // the interpreter writes through raw pointers derived from these shared slices
-        let mem = unsafe { std::slice::from_raw_parts(mem_ptr, mem_len) };
-        let mbuff = unsafe { std::slice::from_raw_parts(mbuff_ptr, mbuff_len) };
-        let r = vm.execute_program(mem, mbuff);
+        rbpf::verif::set_insn_budget(cref.budget);
+        let memr: &mut [u8] = unsafe { std::slice::from_raw_parts_mut(mem_ptr, mem_len) };
+        let mbuffr: &[u8] = unsafe { std::slice::from_raw_parts(mbuff_ptr, mbuff_len) };
+        let r = match &mut vm {
+            Vm::Mbuff(v) => v.execute_program(memr, mbuffr),
+            Vm::Raw(v) => v.execute_program(memr),
+            Vm::NoData(v) => v.execute_program(),
+            Vm::Fixed(v) => v.execute_program(memr),
+        };
         rbpf::verif::set_insn_budget(0);
-        Ok(match r { Ok(v) => format!("ok r0={:016x}", v), Err(e) => { let cl = err_class(&e.to_string()); if cl == "budget" { "budget".to_string() } else { format!("err:{}", cl) } } })
+        let out = match r { Ok(v) => format!("ok r0={:016x}", v), Err(e) => { let cl = err_class(&e.to_string()); if cl == "budget" { "budget".to_string() } else { format!("err:{}", cl) } } };
+        let interp_ok = out.starts_with("ok");
+        let (nlog, logd) = log_digest();
+        let (mview, bview): (&[u8], &[u8]) = unsafe { (std::slice::from_raw_parts(mem_ptr, mem_len), std::slice::from_raw_parts(mbuff_ptr, mbuff_len)) };
+        let first = format!("{} mem={:016x} mbuff={:016x} LOG={}:{:016x}", out, fnv(mview), fnv(bview), nlog, logd);
+        // engines, each on pristine buffers
+        for e in &engines {
+            let mut m2 = mem0.clone(); let mut b2 = mbuff0.clone();
+            // patched addresses refer to the first buffers: engines that need patches run on those (restored) buffers instead
+            let (m2p, m2l, b2p, b2l) = if cref.patch.is_empty() { (m2.as_mut_ptr(), m2.len(), b2.as_mut_ptr(), b2.len()) } else {
+                unsafe { std::ptr::copy_nonoverlapping(mem0.as_ptr(), mem_ptr, mem_len); std::ptr::copy_nonoverlapping(mbuff0.as_ptr(), mbuff_ptr, mbuff_len); }
+                (mem_ptr, mem_len, mbuff_ptr, mbuff_len) };
+            let m2r: &mut [u8] = unsafe { std::slice::from_raw_parts_mut(m2p, m2l) };
+            let b2r: &mut [u8] = unsafe { std::slice::from_raw_parts_mut(b2p, b2l) };
+            HLOG.with(|l| l.borrow_mut().clear());
+            unsafe { ALIGN_SLOT = 0xff; }
+            let compiled = match (e.as_str(), &mut vm) {
+                ("jit", Vm::Mbuff(v)) => v.jit_compile(), ("jit", Vm::Raw(v)) => v.jit_compile(), ("jit", Vm::NoData(v)) => v.jit_compile(), ("jit", Vm::Fixed(v)) => v.jit_compile(),
+                ("clif", Vm::Mbuff(v)) => v.cranelift_compile(), ("clif", Vm::Raw(v)) => v.cranelift_compile(), ("clif", Vm::NoData(v)) => v.cranelift_compile(), ("clif", Vm::Fixed(v)) => v.cranelift_compile(),
+                _ => return Err("unknown engine".into()),
+            };
+            if let Err(_) = compiled { engine_out_ref.push(format!("{}=compile-err", e)); continue; }
+            if !interp_ok { engine_out_ref.push(format!("{}=compiled", e)); continue; }   // outside the claim: never run unchecked code
+            unsafe { libc::alarm(10); }
+            let r = unsafe { match (e.as_str(), &mut vm) {
+                ("jit", Vm::Mbuff(v)) => v.execute_program_jit(m2r, b2r), ("jit", Vm::Raw(v)) => v.execute_program_jit(m2r), ("jit", Vm::NoData(v)) => v.execute_program_jit(), ("jit", Vm::Fixed(v)) => v.execute_program_jit(m2r),
+                ("clif", Vm::Mbuff(v)) => v.execute_program_cranelift(m2r, b2r), ("clif", Vm::Raw(v)) => v.execute_program_cranelift(m2r), ("clif", Vm::NoData(v)) => v.execute_program_cranelift(), ("clif", Vm::Fixed(v)) => v.execute_program_cranelift(m2r),
+                _ => unreachable!(),
+            } };
+            unsafe { libc::alarm(0); }
+            let (nlog, logd) = log_digest();
+            let al = unsafe { ALIGN_SLOT };
+            let (mview, bview): (&[u8], &[u8]) = unsafe { (std::slice::from_raw_parts(m2p, m2l), std::slice::from_raw_parts(b2p, b2l)) };
+            engine_out_ref.push(match r { Ok(v) => format!("{}=ok:r0={:016x}:mem={:016x}:mbuff={:016x}:LOG={}:{:016x}:align={:x}", e, v, fnv(mview), fnv(bview), nlog, logd, al), Err(_) => format!("{}=err", e) });
+        }
+        Ok(first)
     }));
     let stackbase = rbpf::verif::last_stack_base();
     let out = match res { Ok(Ok(s)) => s, Ok(Err(e)) => format!("setup-error:{}", e.replace(' ', "_")), Err(_) => "panic".to_string() };
     let mut extra_all: Vec<u8> = vec![];
     for e in &c.extra { extra_all.extend_from_slice(e); }
-    let log_bytes: Vec<u8> = HLOG.with(|l| l.borrow().iter().flat_map(|(n, a)| {
-        let mut v = n.to_le_bytes().to_vec(); for x in a { v.extend_from_slice(&x.to_le_bytes()); } v }).collect());
-    let nlog = HLOG.with(|l| l.borrow().len());
-    let detail = if out.starts_with("ok") || out.starts_with("err") || out == "budget" {
-        format!(" mem={:016x} mbuff={:016x} extra={:016x} log={}:{:016x}", fnv(&c.mem), fnv(&c.mbuff), fnv(&extra_all), nlog, fnv(&log_bytes))
-    } else { String::new() };
-    format!("{}{} @ {} stackbase={:x}", out, detail, echo_pre, stackbase)
+    // canonical outcome: "<outcome> mem= mbuff= extra= log=" (extra appended here: engines never see allowed memory)
+    let out = if out.contains(" LOG=") { let (a, b) = out.split_once(" LOG=").unwrap(); format!("{} extra={:016x} log={}", a, fnv(&extra_all), b) } else { out };
+    let eng = if engine_out.is_empty() { String::new() } else { format!(" | {}", engine_out.join(" | ")) };
+    format!("{}{} @ membase={:x} mbuffbase={:x} extrabase={} stackbase={:x} fixedbase={:x}", out, eng, membase, mbuffbase,
+        if extrabase.is_empty() { "-".to_string() } else { extrabase.iter().map(|x| format!("{:x}", x)).collect::<Vec<_>>().join(",") }, stackbase, fixedbase)
 }
 
 // ------------------------------------------------------------------------------------------------
@@ -473,5 +560,18 @@ pub fn gen_memprobe(w: &mut impl Write, thorough: bool, seed: u64) {
                 if rname != "mem" { continue; }
             }
         }
+    }
+}
+
+/// C05: whatever the real verifier accepts is executed — the verify suite's byte strings (every opcode/register byte in every
+/// position, every displacement around the bounds and around wide loads, every last-instruction kind, soups, mutants)
+pub fn gen_accepted(w: &mut impl Write, thorough: bool, seed: u64) {
+    let mut buf: Vec<u8> = vec![];
+    crate::verify::gen(&mut buf, thorough, seed);
+    let mem = pattern(64, 5); let mb = pattern(32, 9);
+    for l in String::from_utf8(buf).unwrap().lines() {
+        let Some(p) = l.strip_prefix("verify ") else { continue };
+        if p.len() > 16 * 400 || p == "-" { continue; }
+        writeln!(w, "exec tag=accepted prog={} mem={} mbuff={} helpers=1:0,2:1,ffffffff:2 budget=400", p, hex(&mem), hex(&mb)).unwrap();
     }
 }
